@@ -396,6 +396,7 @@ class Timestamp(Primitive):
             raise ValidationError('expected timestamp, got %s'
                                   % generic_type_name(val))
         elif val.tzinfo is not None and \
+                val.tzinfo.utcoffset(val) is not None and \
                 val.tzinfo.utcoffset(val).total_seconds() != 0:
             raise ValidationError('timestamp should have either a UTC '
                                   'timezone or none set at all')
@@ -568,6 +569,16 @@ class StructTree(Struct):
     # as a usless-suppression (and can be removed) once a fix is released
     def __init__(self, definition):  # pylint: disable=useless-super-delegation
         super().__init__(definition)
+
+    def validate_type_only(self, val):
+        super().validate_type_only(val)
+        # An instance of the struct itself (not of an enumerated subtype) has
+        # no serialization unless the subtypes are open-ended.
+        if (type(val) is self.definition and
+                not getattr(self.definition, '_is_catch_all_', True)):
+            raise ValidationError(
+                'expected an instance of an enumerated subtype of %s, got '
+                'the type itself' % type_name_with_module(self.definition))
 
     def has_default(self):
         # An instance of the base struct itself is not serializable, so it is
